@@ -650,6 +650,24 @@ m("c11-merge-naked-delete-keeps-start-tail-from-cursor", "C11", "nomt/src/merkle
         ("nomt/src/merkle/seek.rs",
          "                if key_path == Some(&overlay_key) {\n                    // The leaf data has been updated in the overlay.\n                    beatree_leaf_idx += 1;\n                }",
          "                final_leaf_data_collection\n                    .extend_from_slice(&collected_leaf_data[start_idx..beatree_leaf_idx]);\n                if key_path == Some(&overlay_key) {\n                    // The leaf data has been updated in the overlay.\n                    beatree_leaf_idx += 1;\n                }\n                start_idx = beatree_leaf_idx;")])
+# ---- C11 S10: every updated merkle page is handed on ----
+m("c11-frozen-iter-skips-empty-diffs", "C11", "nomt/src/merkle/mod.rs",
+  "        self.0.into_iter().flatten().map(move |updated_page| {",
+  "        self.0.into_iter().flatten().filter(|updated_page| !updated_page.diff.cleared()).map(move |updated_page| {",
+  "C11|S10|merkle::UpdatedPages::into_frozen_iter|element-preserving-adapters")
+m("benign-frozen-iter-inspect", "C11", "nomt/src/merkle/mod.rs",
+  "        self.0.into_iter().flatten().map(move |updated_page| {",
+  "        self.0.into_iter().flatten().inspect(|_updated_page| {}).map(move |updated_page| {",
+  None)
+# ---- C03 O18: the redo applies the whole Update entry ----
+m("c03-redo-elided-word-only-when-claimed", "C03", "nomt/src/bitbox/mod.rs",
+  "                page[PAGE_SIZE - 32 - 8..PAGE_SIZE - 32]\n                    .copy_from_slice(&elided_children.to_bytes());",
+  "                if meta_map_changed {\n                    page[PAGE_SIZE - 32 - 8..PAGE_SIZE - 32]\n                        .copy_from_slice(&elided_children.to_bytes());\n                }",
+  "C03|O18|bitbox::recover|update-entry-field=elided_children")
+m("benign-redo-label-through-slice", "C03", "nomt/src/bitbox/mod.rs",
+  "                page[PAGE_SIZE - 32..].copy_from_slice(&page_id);",
+  "                {\n                    let label: &mut [u8] = &mut page[PAGE_SIZE - 32..];\n                    label.copy_from_slice(&page_id[..]);\n                }",
+  None)
 # ---- C12 guardfx: a value whose Drop impl performs an effect is an effect where it is dropped ----
 m("c12-root-restore-guard-before-check", "C12", "nomt/src/lib.rs",
   "        let _write_guard = self.take_global_guard.then(|| nomt.access_lock.write());\n\n        {\n            let mut shared = nomt.shared.lock();\n            if shared.root != self.prev_root {\n                anyhow::bail!(\n                    \"Changeset no longer valid (expected previous root {:?}, got {:?})\",\n                    self.prev_root,\n                    shared.root\n                );\n            }\n            shared.root = Root(self.merkle_output.root);\n            shared.last_commit_marker = None;\n        }\n\n        if let Some(rollback_delta) = self.rollback_delta {\n            // UNWRAP: if rollback_delta is `Some`, then rollback must be also `Some`.\n            let rollback = nomt.store.rollback().unwrap();\n            if let Err(e) = rollback.commit(rollback_delta) {",
